@@ -182,6 +182,8 @@ type c18Opts struct {
 	SampleIndex int    `json:"sample_index,omitempty"`
 	Compact     bool   `json:"compact_labels,omitempty"`
 	KeepAll     bool   `json:"keep_all,omitempty"` // nodefraction=0 edgefraction=0
+	Unit        string `json:"unit,omitempty"`     // -unit= / report.Options.OutputUnit ("" = minimum)
+	DropNeg     bool   `json:"drop_negative,omitempty"`
 }
 
 // a graph handed to graph.ComposeDot directly
@@ -227,6 +229,9 @@ type c18Graph struct {
 	Total  int64     `json:"total"`
 	Nodes  []c18Node `json:"nodes"`
 	Edges  []c18Edge `json:"edges,omitempty"`
+	// the last Unlisted nodes are NOT put into Graph.Nodes (edges may still point at them, as
+	// happens when graph construction drops a node but not its edges)
+	Unlisted int `json:"unlisted,omitempty"`
 }
 
 type c18Case struct {
@@ -239,4 +244,5 @@ type c18Case struct {
 	Str     c18s      `json:"str,omitempty"`
 	Known   bool      `json:"known_stream,omitempty"`
 	Look    int       `json:"lookalike_pct,omitempty"` // how the input was generated (information only)
+	Vals    string    `json:"values_mode,omitempty"`   // how the sample values were generated (information only)
 }
